@@ -829,6 +829,7 @@ func TestVerif_C23(t *testing.T) {
 	var stop atomic.Bool
 	runLanes := func(kind string, lanes, episodes int, episode func(lane *vC23Lane, lrng *rand.Rand, label string) bool) {
 		var wg sync.WaitGroup
+		seenBefore := r.Counter("violation_observations") // a broken store floods: a few dozen refuting episodes per part are enough
 		for l := 0; l < lanes; l++ {
 			lane := &vC23Lane{idx: l}
 			lrng := r.Fork("c23-"+kind, l)
@@ -841,7 +842,7 @@ func TestVerif_C23(t *testing.T) {
 					}
 				}()
 				done := 0
-				for i := l; i < episodes && !stop.Load() && r.Violations() < 8; i += lanes {
+				for i := l; i < episodes && !stop.Load() && r.Violations() < 8 && r.Counter("violation_observations")-seenBefore < 24; i += lanes {
 					if done%50 == 0 {
 						if lane.store != nil {
 							_ = lane.store.Close()
